@@ -43,6 +43,20 @@ Example C09_example :
   In (AuthCall 1 "plain" (Some 1) "tls") (rr_trace (handle_channel s_repaired conf w_oracle [w_new ""; choice; w_auth])).
 Proof. vm_compute. tauto. Qed.
 
+(* SetEncryption itself (all transports): a successful call leaves exactly the requested option in force - so
+   after the client applied a confirmation (theorem above) the option in force is the confirmed one. *)
+Theorem C09_a_successful_switch_leaves_the_requested_option_in_force : forall k tls_ok cur e enc',
+  set_enc k tls_ok cur e = (true, enc') -> enc' = e.
+Proof. exact set_enc_ok_is_requested. Qed.
+Print Assumptions C09_a_successful_switch_leaves_the_requested_option_in_force.
+
+(* the tree as found: asked for an encryption it does not know, the TCP transport ran the TLS handshake,
+   reported success and was under "tls" *)
+Theorem C09_as_found_unknown_option_refuted :
+  set_enc_as_found (TTcp true) true "none" "rot13" = (true, "tls").
+Proof. exact set_enc_as_found_takes_unknown_for_tls. Qed.
+Print Assumptions C09_as_found_unknown_option_refuted.
+
 (* Pipelined peers (Hs/Pipelined.v): an envelope written in the same segment as an input after which the server
    switched the encryption was received in clear and is discarded with the old decoder, whatever it is; and
    whatever the peer glues together, the server's run over what it does get to see obeys every rule above. *)
